@@ -17,7 +17,7 @@ PROPS['C20'] = {
     'quick_configs': ['default'],
     'thorough_configs': ['default', 'noalloc', 'nounicode', 'nostd'],
     'controls': [],
-    'floors': {'default': {'W1': 60, 'W1.bytes': 1, 'W2': 1, 'R10.4.hint': 1, 'SB2': 1}},
+    'floors': {'default': {'W1': 60, 'W1.bytes': 1, 'W2': 1, 'R10.4.hint': 1, 'SB2': 1, 'W4': 2}},
     'rule_text': 'one obligation per overflow/division/shift site of the sector/cluster/offset arithmetic '
                  '(boot_sector.rs geometry helpers, fs.rs offset_from_*/DiskSlice, table.rs get/set/find_free/alloc): '
                  'discharged by the interval analysis under validated-BPB invariants or a reasoned table entry; the '
@@ -298,7 +298,7 @@ PROPS['C15'] = {
     'quick_configs': ['default', 'noalloc'],
     'thorough_configs': ALL,
     'controls': ['N1'],
-    'floors': {'default': {'N1': 6, 'N3.chars': 1, 'N3.len': 1, 'N6': 1, 'N5': 2, 'N2': 60}},
+    'floors': {'default': {'N1': 6, 'N3.chars': 1, 'N3.len': 1, 'N6': 1, 'N5': 2, 'N2': 60, 'N5b': 1, 'N7': 1}},
     'rule_text': 'obligations: one per instance of create_file/create_dir/rename (two-state protocol: no unguarded device '
                  'write before a name validator\'s Ok edge), the accepted-character table over all 0x110000 code points, '
                  'the length table over all usize lengths, the accepted long-name sequence numbers, the buffer capacity '
@@ -329,7 +329,7 @@ PROPS['C01'] = {
     'quick_configs': ['default'],
     'thorough_configs': ALL,
     'controls': ['N1'],
-    'floors': {'default': {'N1': 6, 'R1.2': 6, 'R1.3': 1, 'R1.5': 6, 'R3.7': 1, 'R1.7': 120}},
+    'floors': {'default': {'N1': 6, 'R1.2': 6, 'R1.3': 1, 'R1.5': 6, 'R3.7': 1, 'R1.7': 120, 'R1.8': 1, 'N5b': 1}},
     'rule_text': 'obligations: N1 instances (shared with C15), one per mutation site of create_file/create_dir/'
                  'rename_internal (must lie on the `name is free` arm), the emptiness guard of remove, the '
                  'publish-before-delete order of rename, and one per intermediate path lookup; non-trivial = dominance or '
@@ -420,7 +420,7 @@ PROPS['C16'] = {
     'quick_configs': ['default'],
     'thorough_configs': ALL,
     'controls': [],
-    'floors': {'default': {'S1': 1, 'S2.checksum': 1, 'S3.rescan': 1, 'S3.plain': 1}},
+    'floors': {'default': {'S1': 1, 'S2.checksum': 1, 'S3.rescan': 1, 'S3.plain': 1, 'S3.chk': 1}},
     'rule_text': 'obligations: the character-mapping decision table over all 0x110000 code points, the checksum data '
                  'path (three links), the rescan-per-retry condition, the bookkeeping call and the 8-case table of the '
                  'plain-form decision; non-trivial = partition walk, path query or dependence query',
@@ -474,7 +474,7 @@ PROPS['C03'] = {
     'quick_configs': ['default'],
     'thorough_configs': ALL,
     'controls': [],
-    'floors': {'default': {'R3.1': 1, 'R3.2': 1, 'R3.3': 1, 'R3.7': 1, 'R3.8': 1}},
+    'floors': {'default': {'R3.1': 1, 'R3.2': 1, 'R3.3': 1, 'R3.7': 1, 'R3.8': 1, 'R3.9': 1}},
     'rule_text': 'obligations: zero-fill of directory clusters (length, guard, position, the two callers\' arguments), '
                  'dot entries, release-on-failure of the unpublished allocation, `..` rewrite on move, first-cluster reset '
                  'at offset 0, the contiguous-run counter of the free-slot search, the truncate order, plus the reclaim '
@@ -555,7 +555,7 @@ PROPS['C18'] = {
     'quick_configs': ['default'],
     'thorough_configs': ALL,
     'controls': [],
-    'floors': {'default': {'R18.1': 3, 'R18.2': 6, 'R18.4': 1, 'R18.5': 3}},
+    'floors': {'default': {'R18.1': 3, 'R18.2': 6, 'R18.4': 1, 'R18.5': 3, 'R18.6': 4, 'R18.3': 1}},
     'rule_text': 'obligations: one per clock read (must go through options.time_provider), per timestamp setter (closed '
                  'caller set from the mono call graph), the access-date option guard, the stamp-on-write must-call, the '
                  'rename-keeps-body shape and one per editor setter (its unchanged-test must cover every stored field)',
@@ -602,3 +602,35 @@ PROPS['C19'] = {
     'technique': 'static analysis: cross-configuration diff of normalised MIR bodies + who-may-call',
     'assumptions': COMMON_ASSUMPTIONS,
 }
+
+
+# rules added after the second and third seeding rounds (DESIGN.md section 9.6)
+ADDENDA = {
+    'C01': ' R1.8: no Ok exit of Dir::rename avoids both rename_internal and the recursion into a sub-directory. N5b (from '
+           'module c15): a possibly-true result of the long-name comparison is reachable only after the end of both names.',
+    'C02': ' B5.neg: the signed seek target is not clamped / saturated / made absolute before the fallible conversion.',
+    'C03': ' R3.9: long-name slots are padded with 0xFFFF behind a single 0x0000 terminator. R3.1 also requires the '
+           'zero-fill on every Ok path of the `zero` arm.',
+    'C04': ' SB1/SB2: the mount-side root-directory size and cluster count use the same rounding as the format side.',
+    'C05': ' R3.8 (from module c03): truncate marks the new end before freeing the tail, so the returned count excludes '
+           'the kept cluster.',
+    'C07': ' The rejecting comparisons of M2b are checked at their boundary: which arm is taken when both operands are '
+           'equal (e.g. backup boot sector == reserved sectors must be rejected).',
+    'C08': ' X4 holds for every store of Fat32::set / Fat12::set_raw (no bypass path). R10.2 and T3/T3b are taken over '
+           'from C10 / C17 (active table selection; orphaned long-name runs).',
+    'C09': ' R9.7: no error-discarding Result function (ok, into_iter, unwrap_or, ..) instantiated with a device-capable '
+           'error type is reached from fatfs code through library adaptors such as iter.flatten() (monomorphic graph).',
+    'C10': ' R10.2 requires the geometry to be selected by mirroring_enabled() itself (not by something derived from it).',
+    'C11': ' W1/W4 are taken over from C20 (no 32-bit overflow in the offset arithmetic; biased cluster bounds).',
+    'C15': ' N5b: equality is reported only after both sequences are exhausted. N7: the number of long-name slots is the '
+           'length divided by 13 rounded up.',
+    'C16': ' S3.chk: a checksum-form entry blocks a numeric tail only if its checksum digits equal the generator\'s.',
+    'C18': ' R18.3 requires the stamp on every path of the entry arm. R18.6: the DOS date / time words are cut at the bit '
+           'positions of the specification (shift / mask pairs of decode, shifts of encode).',
+    'C19': ' R19.3 also requires set_len / len of the fixed buffer to be the identity (as Vec\'s are); T2n is evaluated in '
+           'the no-alloc build.',
+    'C20': ' W2 requires the second leg to end exactly at the first leg\'s start. W4: every comparison of a cluster number '
+           'with a bound derived from total_clusters carries the +2 / -2 bias of the reserved entries. SB2 as in C07.',
+}
+for _pid, _txt in ADDENDA.items():
+    PROPS[_pid]['explanation'] = PROPS[_pid]['explanation'] + _txt
